@@ -3,6 +3,7 @@ from hypothesis import strategies as st
 
 from vlib import layoutgen as G
 from vlib.runner import Outcome, hyp_search
+from vlib.workmeter import METER, WorkBudgetExceeded
 
 ID = "C08"
 LEVEL = "exploration"
@@ -187,8 +188,16 @@ def run_case(case):
     page, objs = G.mkpage(case["items"], case["bbox"])
     _tag_inputs(objs)
     classes = []
+    # "layout analysis terminates": event budget instead of a wall clock (grouping is O(n^2 log n) in the boxes)
+    nchars = sum(1 for s in case["items"] if s["k"] == "char") + sum(len(s.get("items", [])) for s in case["items"] if s["k"] == "figure")
+    budget = 3_000_000 + 4000 * nchars * nchars
+    _, e, _n = METER.run(lambda: page.analyze(la), budget)
+    if isinstance(e, WorkBudgetExceeded):
+        return Outcome(["no-termination"], True, fail="analyze did not finish within %d interpreter events for %d glyphs; la=%r items=%r" % (
+            budget, nchars, case["la"], case["items"][:12]))
     try:
-        page.analyze(la)
+        if e is not None:
+            raise e
     except Exception as e:
         import traceback
 
